@@ -66,6 +66,13 @@ def cases(tier):
             for role in ('server', 'client'):
                 for r in renders:
                     out.append(('comp', ci, bi, role, r))
+    # the same bytes delivered in other TCP segments: the identification line (and the KEXINIT) cut at every offset / byte by byte
+    for bi in range(len(BANNERS)):
+        for role in ('server', 'client'):
+            for r in ('plain', 'json'):
+                for k in range(1, len(BANNERS[bi]) + 2):
+                    out.append(('seg', bi, ('split', k), role, r))
+                out.append(('seg', bi, ('seg1',), role, r))
     # SSH-1 masks
     if tier == 'quick':
         masks = [(c, 0x0c) for c in list(range(128)) + [0x80, 0xff, 0x100 | 0x08, 0xffffffff]] + \
@@ -102,6 +109,9 @@ def build(case):
     elif kind == 'comp':
         _k, ci, bi, role, r = case
         comp, banner = COMPS[ci], BANNERS[bi]
+    elif kind == 'seg':
+        _k, bi, _f, role, r = case
+        banner = BANNERS[bi]
     return role, r, lists, c2s, comp, banner
 
 
@@ -111,15 +121,21 @@ def run_case(case):
         srv = peer.Server(banner=b'SSH-1.5-OpenSSH_3.4', ssh1={'cmask': cm, 'amask': am})
         return H.audit(srv, opts=RENDER[r] + ['-1', '--skip-rate-test']), None
     role, r, lists, c2s, comp, banner = build(case)
+    faults = None
+    if case[0] == 'seg':
+        lab = 'srv' if role == 'server' else 'cli'
+        faults = {(lab, 0, 0): case[2]}
+        if case[2] == ('seg1',):
+            faults[(lab, 0, 1)] = ('seg1',)
     if role == 'server':
         keynames = [x.decode('utf-8', 'replace') for x in lists['key']]
         srv = peer.Server(banner=banner, kex=lists['kex'], key=lists['key'], enc=lists['enc'], mac=lists['mac'],
                           enc_c2s=c2s.get('enc'), mac_c2s=c2s.get('mac'), comp=comp,
                           host_keys=peer.standard_host_keys(keynames))
-        return H.audit(srv, opts=RENDER[r] + ['--skip-rate-test']), (lists, c2s, comp, banner)
+        return H.audit(srv, opts=RENDER[r] + ['--skip-rate-test'], faults=faults), (lists, c2s, comp, banner)
     cli = peer.Client(banner=banner, kex=lists['kex'], key=lists['key'], enc=c2s.get('enc', lists['enc']), mac=c2s.get('mac', lists['mac']),
                       enc_s2c=lists['enc'], mac_s2c=lists['mac'], comp=comp)
-    return H.client_audit(cli, opts=RENDER[r]), (lists, c2s, comp, banner)
+    return H.client_audit(cli, opts=RENDER[r], faults=faults), (lists, c2s, comp, banner)
 
 
 SSH1_CIPHERS = ['none', 'idea', 'des', '3des', 'tss', 'rc4', 'blowfish']
@@ -228,6 +244,37 @@ def work(chunk, st):
             st.sample({'case': _jsonable(case), 'status': res.status})
 
 
+# ---- the same oracle over the peers every other check builds (certificates, group exchange, vendor banners, whole-database lists ...)
+def work_zoo(chunk, st):
+    from props import zoo
+    for e in map(zoo.get, chunk):
+        if e['ssh1']:
+            continue
+        want = {c: [n for n in e['lists'][c] if n != ''] for c in e['lists']}
+        for r in ('plain', 'verbose', 'json'):
+            res = zoo.audit(e, RENDER[r])
+            st.execution(res.world, outcome=('zoo', res.status, r), root=('zoo', e['name'], r), nontrivial=('zoo', e['name'], r))
+            d = {'peer': e['name'], 'render': r, 'status': res.status}
+            if res.hang or res.exc or res.status not in (0, 2, 3):
+                st.violation('zoo:no-report:status-%s' % res.status, dict(d, tail=(res.stdout + res.stderr)[-300:]))
+                continue
+            if r == 'json':
+                try:
+                    doc = json.loads(res.stdout)
+                except ValueError:
+                    st.violation('zoo:json-unparseable', dict(d, stdout=res.stdout[:200]))
+                    continue
+                got = {c: [n for n in (report.json_names(doc, c) or []) if n != ''] for c in want}     # empty names are not names
+            else:
+                rep = report.TextReport(res.stdout)
+                got = {c: (collapse(rep.names(c)) if r == 'verbose' else rep.names(c)) for c in want}
+            for c in want:
+                w = collapse(want[c]) if r == 'verbose' else want[c]
+                if got[c] != w:
+                    st.violation('zoo:%s-names-differ:%s' % ('json' if r == 'json' else 'text', c), dict(d, cat=c, reported=got[c][:12], advertised=w[:12]))
+    st.sample({'zoo_peers': list(chunk[:3])}, cap=3)
+
+
 def _jsonable(case):
     return json.loads(json.dumps(case, default=lambda o: o.decode('latin1') if isinstance(o, bytes) else repr(o)))
 
@@ -257,13 +304,17 @@ def run(tier, seed):
     t0 = time.time()
     cs = cases(tier)
     st = par.pmap(work, cs)
+    from props import zoo
+    zs = zoo.names(tier)
+    par.pmap(work_zoo, zs, stats=st, chunk=6)
     validated = H.validate_traces(validation_cases(cs, seed, 40 if tier == 'quick' else 200), st)
     return evidence.finish(
         PID, tier, seed, st, t0,
         rule='name alphabet per category (2 DB names, unknown, 303-char, non-UTF-8, special characters; kex adds gss-* with base64 suffixes and '
              '"gss-"): all lists of length 0..%d in one category at a time, full cross of all categories at length <=1, asymmetric c2s/s2c, '
-             'compression lists x banners; x role {server, client} x rendering {plain, batch, verbose, json%s}; every SSH-1 cipher mask and '
-             'authentication mask; each distinct case is non-trivial' % (2 if tier == 'quick' else 3, '' if tier == 'quick' else ', colour'),
+             'compression lists x banners; each banner cut into two segments at every offset and delivered byte by byte; x role {server, client} x rendering {plain, batch, verbose, json%s}; every SSH-1 cipher mask and '
+             'authentication mask; the same oracle over the %d cooperative peers of props/zoo.py (drawn from every other check) in plain, verbose and JSON; '
+             'each distinct case is non-trivial' % (2 if tier == 'quick' else 3, '' if tier == 'quick' else ', colour', len(zs)),
         assumptions=['expected names = independent decode of the bytes the scripted peer sent (mc/wire.py)',
                      'verbose rendering compared after collapsing adjacent duplicates', 'empty names are not names'],
         exhaustive=True, traces_validated=validated, extra={'cases': len(cs)})
